@@ -307,3 +307,19 @@ def ancestors(parents, i):
         out.append(p)
         p = parents[p]
     return out
+
+
+def skeleton_source(lines, placeholder='__E%d_%d__'):
+    """Text of a skeleton with every spliced expression replaced by an identifier, so that the
+    emitted shape can be parsed by the target language's parser.  Returns (source, table) where
+    table maps identifier -> (Line, expression ast)."""
+    out = []
+    table = {}
+    for li, l in enumerate(lines):
+        t = l.text
+        for k, e in enumerate(l.exprs):
+            ident = placeholder % (li, k)
+            table[ident] = (l, e)
+            t = t.replace('\x00%d\x00' % k, ident)
+        out.append(' ' * max(l.indent, 0) + t)
+    return '\n'.join(out) + '\n', table
